@@ -199,6 +199,34 @@ def check(ctx):
                          'the diagnostics of a package differ between runs with different TMPDIR / hash seed / -j: %r' % (first_diff(outs[0][0], outs[1][0]) or first_diff(outs[0][0], outs[2][0]),))
             else:
                 ctx.nontriv(('pkg', pkg))
+        # a package followed / preceded by ordinary arguments: each argument's output is the one of its own single-file run (D28, fixed:
+        # the options made for the package leaked to the later arguments of a sequential run)
+        with open(os.path.join(root, 'other.txt'), 'w') as f:
+            f.write('hello\n')
+        shutil.copy(os.path.join(d, 'brace-types.po'), os.path.join(root, 'plain.po'))
+        singles = {}
+        for a in pkgs + ['other.txt', 'plain.po']:
+            singles[a] = run_cli(['--unpack-deb', a], 0, root)
+        for pkg in pkgs:
+            for order in ([pkg, 'other.txt', 'plain.po'], ['other.txt', pkg, 'plain.po', 'other.txt'], ['plain.po', pkg, pkg, 'other.txt']):
+                for seed, opts in [(0, []), (2, ['-j', '2']), (1, ['-j', '1'])]:
+                    out, err, rc = run_cli(['--unpack-deb'] + opts + order, seed, root)
+                    want = ''.join(singles[a][0] for a in order)
+                    ctx.evaluations += 1
+                    ctx.count('package-run')
+                    # the members of one package may be walked in any order: compare per argument as sorted blocks
+                    def blocks(text, args):
+                        res, rest = [], text.split('\n')[:-1]
+                        for a in args:
+                            n = len(singles[a][0].split('\n')) - 1
+                            res.append(sorted(rest[:n]))
+                            rest = rest[n:]
+                        return res + [rest]
+                    if blocks(out, order) != blocks(want, order):
+                        ctx.fail('context-dependence', {'config': '--unpack-deb ' + ' '.join(opts + order)},
+                                 'the output is not the concatenation of the single-argument runs; first difference: %r' % (first_diff(out, want),), finding=None)
+                    else:
+                        ctx.nontriv(('pkgmix', pkg, tuple(order), tuple(opts)))
     ctx.samples = [{'config': c[0], 'nfiles': (len(c[1]) if c[1] else len(files))} for c in configs[:10]]
     ctx.stats['files'] = len(files)
     shutil.rmtree(d, ignore_errors=True)
